@@ -94,6 +94,71 @@ theorem reach_inv {os : OsTryLock} (hos : OsSound os) {s : State} (h : Reach tru
   | init => exact inv_init
   | step l _ ih => exact inv_step hos ih l
 
+/-- converse invariant: no stale lock — every lock-table entry belongs to an OPEN handle of that path
+    (`close` and process death release the lock with the file description) -/
+def NoStale (s : State) : Prop :=
+  ∀ p i, s.lockTable p = some i → ∃ h, h ∈ s.handles ∧ h.id = i ∧ h.path = p
+
+theorem noStale_init : NoStale init := by intro p i h; simp [init] at h
+
+theorem noStale_step (os : OsTryLock) {s : State} (hi : NoStale s) (l : Label) :
+    NoStale (step true os s l).1 := by
+  cases l with
+  | «open» proc path =>
+    simp only [step, if_true]
+    split
+    · intro p i h
+      simp only at h
+      by_cases hp : p = path
+      · subst hp
+        simp only [if_true, Option.some.injEq] at h
+        exact ⟨⟨s.nextId, proc, p⟩, List.mem_cons_self, h, rfl⟩
+      · simp only [hp, if_false] at h
+        obtain ⟨hd, hm, h1, h2⟩ := hi p i h
+        exact ⟨hd, List.mem_cons_of_mem _ hm, h1, h2⟩
+    · exact hi
+  | close id =>
+    simp only [step]
+    intro p i h
+    simp only [release] at h
+    cases ht : s.lockTable p with
+    | none => simp [ht] at h
+    | some j =>
+      simp only [ht] at h
+      split at h
+      · cases h
+      · rename_i hc
+        simp only [Option.some.injEq] at h; subst h
+        obtain ⟨hd, hm, h1, h2⟩ := hi p j ht
+        refine ⟨hd, ?_, h1, h2⟩
+        simp only [List.mem_filter, bne_iff_ne, ne_eq]
+        refine ⟨hm, ?_⟩
+        intro e; apply hc; simp [← e, h1]
+  | crash proc =>
+    simp only [step]
+    intro p i h
+    simp only [release] at h
+    cases ht : s.lockTable p with
+    | none => simp [ht] at h
+    | some j =>
+      simp only [ht] at h
+      split at h
+      · cases h
+      · rename_i hc
+        simp only [Option.some.injEq] at h; subst h
+        obtain ⟨hd, hm, h1, h2⟩ := hi p j ht
+        refine ⟨hd, ?_, h1, h2⟩
+        simp only [List.mem_filter, bne_iff_ne, ne_eq]
+        refine ⟨hm, ?_⟩
+        intro e; apply hc
+        simp only [List.contains_iff_mem, List.mem_map, List.mem_filter, beq_iff_eq]
+        exact ⟨hd, ⟨hm, e⟩, h1⟩
+
+theorem reach_noStale {os : OsTryLock} {s : State} (h : Reach true os s) : NoStale s := by
+  induction h with
+  | init => exact noStale_init
+  | step l _ ih => exact noStale_step os ih l
+
 theorem osFlock_sound : OsSound osFlock := by
   intro tbl p h; simp [osFlock] at h; exact h
 
